@@ -448,6 +448,18 @@ func (c *Ctx) Finish() int {
 		vs = append(vs, map[string]string{"sub": v.Sub, "key": v.Key, "detail": trunc(v.Detail, 400), "replay": v.Path})
 	}
 	cov["violations_detail"] = vs
+	if c.assumps == nil {
+		c.assumps = []string{"the check's oracles and enumerators in /verif/harness are correct; the Go toolchain builds /repo's working tree faithfully"}
+	}
+	if c.notes == nil {
+		c.notes = []string{}
+	}
+	if c.capNotes == nil {
+		c.capNotes = []string{}
+	}
+	if c.subspaces == nil {
+		c.subspaces = []map[string]any{}
+	}
 	ev := map[string]any{
 		"property_id": c.ID, "tier": c.Tier, "seed": c.Seed, "level": "model_checking",
 		"coverage": cov, "assumptions": c.assumps, "wall_s": wall, "violations": len(c.viols),
